@@ -249,7 +249,7 @@ def run(ctx):
                       {"kind": "tie-broken", "correspondence": "harness/c10.cpp", "log": out[-3000:]}, nofail=True)
         return
     quick = ctx.tier == "quick"
-    sizes = {"fmt": 70000 if quick else 1500000, "wkt-write": 6000 if quick else 120000,
+    sizes = {"fmt": 70000 if quick else 1500000, "wkt-write": 6000 if quick else 120000, "wkt-write-seq": 2500 if quick else 50000,
              "wkt-read": 4000 if quick else 60000, "wkt-rt": 6000 if quick else 120000,
              "geojson": 4000 if quick else 80000}
     shards = min(verif.NPROC, 12)
@@ -257,7 +257,7 @@ def run(ctx):
     found_input = False
     broken = []
     import time as _t
-    for stream in ("fmt", "wkt-write", "wkt-read", "wkt-rt", "geojson"):
+    for stream in ("fmt", "wkt-write", "wkt-write-seq", "wkt-read", "wkt-rt", "geojson"):
         log("stream", stream, "t=%.1f" % (_t.time() - ctx.t0))
         r = verif.run_stream(exe, stream, ctx.seed, sizes[stream], ctx.work, shards=shards, driver_exe=DRV)
         ndis = len(r["disagreements"]) + r.get("more_disagreements", 0)
@@ -356,6 +356,33 @@ def run(ctx):
                     ctx.violation("WKT write->read of a geometry does not return the specified tree",
                                   {"kind": "failing-input", "stream": stream, "case": case, "impl": exp[:2000], "spec": got[:2000],
                                    "replay_cmd": "%s replay wkt-rt <file with case line>" % exe, "signature": sig}, signature=sig)
+                else:
+                    broken.append((stream, case, exp, got))
+            elif stream == "wkt-write-seq":
+                key = "write-seq"
+                if key in seen:
+                    continue
+                seen.add(key)
+                # locate the first element whose reused-writer text differs from the fresh-writer text: the same geometry under the same
+                # settings then has two different texts depending on what the writer wrote before, so at most one of them is the text at
+                # the stated precision
+                steps = case.split(" | ")[1:]
+                ie, ig = exp.split(" ;; "), got.split(" ;; ")
+                hist = None
+                for k, (a, b) in enumerate(zip(ie, ig)):
+                    if a != b:
+                        ma = re.match(r"^R:(.*) F:(.*)$", a)
+                        if ma and ma.group(1) != ma.group(2):
+                            hist = (k, ma.group(1), ma.group(2))
+                        break
+                if hist:
+                    found_input = True
+                    sig = {"stream": "wkt-write-seq", "class": "output-depends-on-writer-history"}
+                    ctx.violation("a reused WKTWriter writes element %d of a sequence differently from a fresh writer with the same settings: %s vs %s"
+                                  % (hist[0], hist[1][:160], hist[2][:160]),
+                                  {"kind": "failing-input", "stream": stream, "case": case, "element": hist[0], "settings_and_geometry": steps[hist[0]] if hist[0] < len(steps) else None,
+                                   "reused_writer": hist[1][:3000], "fresh_writer": hist[2][:3000], "model": got[:3000],
+                                   "replay_cmd": "%s replay wkt-write-seq <file with case line>" % exe, "signature": sig}, signature=sig)
                 else:
                     broken.append((stream, case, exp, got))
             elif stream == "wkt-write":
